@@ -115,6 +115,21 @@ class Check:
                         vec = {'acc': [3.1, -7.7, 4.9], 'acc2': [-6.0, 2.5, -7.2], 'acc3': [0.4, 9.1, 3.3], 'mag': [21.0, 13.0, -37.0], 'mag2': [-30.0, -8.0, 41.0]}[pert]
                         world['faults'] = [{'kind': 'glitch', 'sensor': pert[:3], 'start': 1, 'len': 1, 'vec': vec}]
                     out.append({'world': world, 'consumers': cons, 'sched_seed': 1, 'lag_bound': 1, 'rng_seed': 1})
+        # consecutive samples exactly half a turn apart (the two attitudes' quaternions are exactly orthogonal): whatever a
+        # batch constructor does *across* rows must survive that
+        pd = dict(W.canonical_poses())
+        for name in ('level_h0', 'level_h90', 'x_up', 'inverted_h0', 'pitch_only_23', 'roll_only_41'):
+            if name not in pd:
+                continue
+            for ai, ax in enumerate(([1, 0, 0], [0, 1, 0], [0, 0, 1])):
+                q1 = pd[name]
+                q2 = qm.qmul(q1, qm.axang(ax, math.pi))
+                for dip in (0.0, 45.0, 66.0):
+                    segs = [{'t': 'pose', 'q': [float(x) for x in q], 'len': 2, 'name': f'{name}{"" if i % 2 == 0 else "+half-turn-" + "xyz"[ai]}'}
+                            for i, q in enumerate((q1, q2, q1, q2))]
+                    world = {'dt': 0.01, 'q0': [float(x) for x in q1], 'segments': segs, 'g': 9.81, 'mscale': 50.0, 'dip': dip,
+                             'noise': {'acc': 0.0, 'mag': 0.0, 'gyr': 0.0}, 'noise_seed': 1, 'gyr_floor': 0.0, 'faults': []}
+                    out.append({'world': world, 'consumers': cons, 'sched_seed': 1, 'lag_bound': 1, 'rng_seed': 1})
         # slow loggers: every recursive filter on a fast constant turn sampled at 0.1 / 0.25 / 1 s (seed independent)
         rec = [{'kind': k, 'params': dict(v)} for k, v in (
             ('madgwick_imu', {'gain': 0.033}), ('madgwick_marg', {'gain': 0.041}), ('mahony_imu', {}), ('mahony_marg', {}),
@@ -147,6 +162,9 @@ class Check:
             consumers.append({'kind': kind, 'params': C.gen_params(rnd, kind)})
             if rnd.random() < 0.2 and C.KINDS[kind].streaming:
                 consumers[-1]['reuse_buffers'] = True        # driver-style application: one set of sample buffers
+            if rnd.random() < 0.2 and len(consumers) < 7:
+                # a second object of the same class, configured differently, in the same process
+                consumers.append({'kind': kind, 'params': C.gen_params(rnd, kind)})
         return {'world': world, 'consumers': consumers, 'sched_seed': rnd.randrange(1 << 30),
                 'lag_bound': rnd.choice([1, 4]), 'rng_seed': rnd.randrange(1 << 30)}
 
